@@ -78,6 +78,11 @@ var keepReal = map[string]bool{
 	"(go.opentelemetry.io/otel/trace.SpanContext).TraceState":     true,
 	"(go.opentelemetry.io/otel/trace.TraceID).IsValid":            true,
 	"(go.opentelemetry.io/otel/trace.SpanID).IsValid":             true,
+	"(go.opentelemetry.io/otel/trace.SpanContext).IsSampled":      true,
+	"(go.opentelemetry.io/otel/trace.SpanContext).IsRemote":       true,
+	"(go.opentelemetry.io/otel/trace.TraceFlags).IsSampled":       true,
+	"(go.opentelemetry.io/otel/trace.TraceFlags).WithSampled":     true,
+	"(go.opentelemetry.io/otel/trace.SpanContext).WithTraceFlags": true,
 	"go.opentelemetry.io/otel/trace/noop.NewTracerProvider":       true,
 	"(go.opentelemetry.io/otel/trace/noop.TracerProvider).Tracer": true,
 }
